@@ -2,6 +2,7 @@ package sym
 
 import (
 	"fmt"
+	"go/types"
 
 	"golang.org/x/tools/go/ssa"
 )
@@ -280,4 +281,34 @@ func init() {
 	vpAPI["vpGoSched"] = func(e *Engine, st *State, args []Value, fn *ssa.Function) []Outcome {
 		return e.drainGoroutines(st)
 	}
+}
+
+func init() {
+	// (*net/http.Client).Do: the request goes straight to the RoundTripper (the client's own, else
+	// http.DefaultTransport, which the harness must have replaced by a scripted one); redirects, cookies and the
+	// client timeout are not modelled (stub, recorded in the evidence).
+	reg("(*net/http.Client).Do", func(e *Engine, st *State, args []Value, fn *ssa.Function) []Outcome {
+		e.rep.noteStub("(*net/http.Client).Do (direct call of the scripted RoundTripper; no redirects/cookies/timeout)")
+		c := e.load(st, args[0].(*PtrV)).(*StructV)
+		rt, _ := c.F[0].(*IfaceV)
+		if rt == nil || rt.T == nil {
+			g, ok := fn.Pkg.Members["DefaultTransport"].(*ssa.Global)
+			if !ok {
+				panic(e.abort("http.DefaultTransport not found"))
+			}
+			rt, _ = e.load(st, e.globalPtr(g)).(*IfaceV)
+		}
+		if rt == nil || rt.T == nil {
+			panic(e.abort("http.Client.Do: no scripted RoundTripper installed"))
+		}
+		var m *types.Func
+		iface := fn.Pkg.Pkg.Scope().Lookup("RoundTripper").Type().Underlying().(*types.Interface)
+		for i := 0; i < iface.NumMethods(); i++ {
+			if iface.Method(i).Name() == "RoundTrip" {
+				m = iface.Method(i)
+			}
+		}
+		target := e.lookupMethod(rt.T, m)
+		return e.callFunction(st, target, []Value{rt.V, args[1]}, nil)
+	})
 }
